@@ -14,7 +14,7 @@ RULE = ("exception codes 0..255 x {read, write, write-multi} x {udp-rtu, tcp} x 
         "(transport, keep-alive, command kind, code, j, delay, entry) tuples")
 ASSUMPTIONS = ["reason texts are the standard Modbus exception names (table copied from the specification into refcodec)",
                "virtual clock: 'at once' means zero virtual time between delivery of the exception frame and the return"]
-MUST = ["same_request_rejected_twice_in_a_row", "compound_call_write_rejected", "public_entry_es", "poll_blocks_rejected_in_turn", "family_level_rejection", "rejected_after_a_request_served_on_retransmission", "public_entry_dt", "named_setting_write", "two_tcp_objects_overlapping", "command_for_another_unit", "tcp_exception_with_wrong_mbap_length", "second_request_rejected", "rejected_after_lone_fragment", "rejected_udp", "rejected_tcp", "after_drops", "delayed_exception", "unknown_code", "public_entry"]
+MUST = ["rejected_after_a_failed_request_on_the_same_object", "same_request_rejected_twice_in_a_row", "compound_call_write_rejected", "public_entry_es", "poll_blocks_rejected_in_turn", "family_level_rejection", "rejected_after_a_request_served_on_retransmission", "public_entry_dt", "named_setting_write", "two_tcp_objects_overlapping", "command_for_another_unit", "tcp_exception_with_wrong_mbap_length", "second_request_rejected", "rejected_after_lone_fragment", "rejected_udp", "rejected_tcp", "after_drops", "delayed_exception", "unknown_code", "public_entry"]
 EXHAUSTIVE = {"quick": True, "thorough": True}
 EPS = 1e-6
 
@@ -75,6 +75,24 @@ def scenario_same_request_again(transport, ka, T, R, kind, code, gap):
     sc["tasks"] = [{"start": 0.0, "steps": [step] + ([["sleep", gap]] if gap else []) + [step]}]
     sc["second"] = True
     sc["same_again"] = True
+    return sc
+
+
+def scenario_public_after_failure(transport, ka, T, R, kind, code, fam):
+    """through the inverter object: a request that gets no answer at all (fails after its retries), then a request answered with an exception
+    frame: the second one is rejected at once, sent once - a failure before it changes nothing"""
+    sc = scenario(transport, ka, T, R, kind, code, 0, 0.0, "public")
+    step = sc["tasks"][0]["steps"][0]
+    first = ["rsensor", 399] if kind == "read" else ["wsetting", 399, 7]
+    if fam == "ES":         # (the ES class reaches raw Modbus registers through read_setting / write_setting only)
+        first = ["api", "read_setting", "modbus-399"] if kind == "read" else ["api", "write_setting", "modbus-399", 7]
+        step = ["api", "read_setting", "modbus-400"] if kind == "read" else ["api", "write_setting", "modbus-400", -2]
+    sc["by_reg"] = {399: [], 400: [["exc", code, 0.0], ["now"], ["now"]]}
+    sc["script"] = []
+    sc["family"] = fam
+    sc["tasks"] = [{"start": 0.0, "steps": [first, step]}]
+    sc["second"] = True
+    sc["after_failure"] = True
     return sc
 
 
@@ -147,6 +165,8 @@ def check_run(sc, run, part: Part):
             part.count("named_setting_write")
         if sc.get("second"):
             part.count("second_request_rejected")
+        if sc.get("after_failure"):
+            part.count("rejected_after_a_failed_request_on_the_same_object")
         if sc.get("same_again"):
             part.count("same_request_rejected_twice_in_a_row")
         if sc.get("after_retx"):
@@ -395,6 +415,9 @@ def run_shard(spec):
                 for gap, delay in ((0.5 * T, 0.8 * T), (0.25 * T, 0.9 * T), (None, 0.5 * T), (None, 0.0)):
                     run_case(scenario_second(spec["transport"], spec["ka"], T, R, spec["kind"], code, gap, delay), part)
                 run_case(scenario_after_retransmission(spec["transport"], spec["ka"], T, R, spec["kind"], code), part)
+                if spec["kind"] != "multi":
+                    for fam_ in ("ET", "DT", "ES"):
+                        run_case(scenario_public_after_failure(spec["transport"], spec["ka"], T, 1, spec["kind"], code, fam_), part)
                 for gap in (None, 0.5 * T, 3 * T):
                     run_case(scenario_same_request_again(spec["transport"], spec["ka"], T, R, spec["kind"], code, gap), part)
                 if spec["transport"] == "tcp":
